@@ -17,7 +17,7 @@ EXTENDS Naturals, Sequences, FiniteSets, TLC, Json
 
 Kinds == {"token", "regex", "skip"}
 Named == {"priority", "callback", "ignore", "allow_greedy"}
-Items == {"skip", "extras", "error", "subA", "subB", "utf8"}
+Items == {"skip", "extras", "error", "subA", "subB", "utf8", "lifetime", "type"}
 
 Injective(s) == \A i, j \in DOMAIN s : i # j => s[i] # s[j]
 Perms(S) == {s \in [1..Cardinality(S) -> S] : Injective(s)}
@@ -35,6 +35,8 @@ Toks(arg) == CASE arg = "lit"          -> <<"Lit">>
                [] arg = "subA"         -> <<"Ident", "Ident", "Eq", "Lit">>           \* subpattern a = "x"
                [] arg = "subB"         -> <<"Ident", "Ident", "Eq", "Lit">>
                [] arg = "utf8"         -> <<"Ident", "Eq", "Ident">>
+               [] arg = "lifetime"     -> <<"Ident", "Eq", "Other">>                  \* lifetime = 'a
+               [] arg = "type"         -> <<"Ident", "Ident", "Eq", "Other", "Other", "Ident">>   \* type T = &'a str
 
 RECURSIVE Stream(_)
 Stream(args) == IF args = <<>> THEN <<>>
@@ -80,7 +82,7 @@ NamedSets(k, p) == {T \in SUBSET Named : ~(p /\ "callback" \in T) /\ ("allow_gre
 AttrCasesFor(k, p) == {[t |-> "attr", kind |-> k, poscb |-> p, named |-> s] : s \in UNION {Perms(S) : S \in NamedSets(k, p)}}
 AttrCases == UNION {AttrCasesFor(k, p) : k \in Kinds, p \in BOOLEAN}
 ItemCases == {[t |-> "items", kind |-> "logos", poscb |-> FALSE, named |-> s] :
-                s \in {q \in UNION {Perms(S) : S \in {T \in SUBSET Items : Cardinality(T) >= 2 /\ ("subB" \in T => "subA" \in T)}} :
+                s \in {q \in UNION {Perms(S) : S \in {T \in SUBSET Items : Cardinality(T) >= 2 /\ Cardinality(T) <= 5 /\ ("subB" \in T => "subA" \in T)}} :
                          \A i, j \in DOMAIN q : (q[i] = "subA" /\ q[j] = "subB") => i < j}}
 
 Init == c \in AttrCases \cup ItemCases
